@@ -110,6 +110,16 @@ def run(c, index, tier):
     if fragile.any():
         c.probe("rows_at_floating_point_tie", int(fragile.sum()))
     c.log.ev("result", "ref", [(m, C.ahash(v)) for m, v in sorted(ref.items())])
+    # the caller keeps what a call returned: no later call may rewrite it (an
+    # output that is a view of a buffer the library reuses would also corrupt
+    # the reference silently)
+    ref_hash = {m: C.ahash(v) for m, v in ref.items()}
+
+    def held_results_intact(after):
+        for m_, h_ in sorted(ref_hash.items()):
+            if C.ahash(ref[m_]) != h_:
+                _viol(c, seen, spec, "result-overwritten", (m_,), "the array returned by %s for the full batch was modified in place by a later call (%s)" % (m_, after))
+                ref_hash[m_] = C.ahash(ref[m_])
     unseen_idx = numpy.array([], dtype=int)
     if spec.name in ("PiecewiseRegressor", "PiecewiseClassifier"):
         try:
@@ -296,3 +306,4 @@ def run(c, index, tier):
                 % (m, op, idx.tolist()[:12], restarted, out.shape, want.shape, bad),
             )
         c.log.ev("result", k, m, C.ahash(out))
+        held_results_intact("%s on a %s batch" % (m, op))
